@@ -5,6 +5,11 @@ import MidoProofs.TableTie
 #print axioms Mido.C07_written_is_storable
 #print axioms Mido.C07_written_type0
 #print axioms Mido.C07_vlq
+#print axioms Mido.C07_roundtrip
+#print axioms Mido.C07_roundtrip_normal
+#print axioms Mido.C07_saved_fixed_point
+#print axioms Mido.readEvents_write
+#print axioms Mido.readTrack_write
 #print axioms Mido.tie_meta_specs
 #print axioms Mido.tie_specs
 #print axioms Mido.tie_realtime
